@@ -13,6 +13,7 @@ import re
 
 from sa.interp import Interp, Scenario, Sym, Const, Bytes, render, merge_consts
 from sa.loader import AnalysisError, dotted
+from sa.condtab import split_filter, conj, table, atoms, same
 
 noinline = lambda f: False  # noqa: E731
 
@@ -32,65 +33,86 @@ def run(rep, prog, tier):
     attach(rep, prog)
 
 
+def _one_packet(body, text):
+    return len(body) == 1 and body[0][0] == 'SYM' and body[0][1] == text
+
+
+def _second(var):
+    """'($3_0, $3_1)' -> '$3_1' (the value of an .items() pair)."""
+    m = re.match(r'^\((\$[\d._]+), (\$[\d._]+)\)$', var)
+    return m.group(2) if m else None
+
+
 def export(rep, prog):
     f = prog.method('pgpy.pgp', 'PGPKey', '__bytearray__')
     rep.saw(fn=f)
+    want = ['KEY', 'KEYSIGS', 'UIDS', 'SUBKEYS']
     for s in Interp(prog, Scenario(inline=noinline)).run(f):
         its = merge_consts(s.ret.items) if isinstance(s.ret, Bytes) else None
         if its is None:
             raise AnalysisError('PGPKey.__bytearray__ does not return bytes')
         kinds = []
+        sites = []          # (bound variable, filter conditions, key level?, collection text)
+        unfiltered = []     # (what, filter conditions) of the collections nothing may be dropped from
         for it in its:
             if it[0] == 'SYM' and it[1] == 'self._key.__bytearray__()':
                 kinds.append('KEY')
             elif it[0] == 'EACH':
                 var, coll, body = it[1], it[2], it[3]
+                base, conds = split_filter(coll)
                 btxt = ' '.join(render_item(b) for b in body)
-                if '_uid.__bytearray__()' in btxt:
+                if base == 'self._uids':
                     kinds.append('UIDS')
+                    unfiltered.append(('user ids', conds))
                     inner = [b for b in body if b[0] == 'EACH']
-                    rep.check(len(inner) == 1 and body[0][0] == 'SYM' and body[0][1] == '%s._uid.__bytearray__()' % var, 'C14.1', 'PGPKey.__bytearray__',
-                              'user id block %s' % btxt[:120], 'each user id / attribute packet is immediately followed by its own signatures', where=f.where)
+                    rep.check(len(inner) == 1 and len(body) == 2 and body[0][0] == 'SYM' and body[0][1] == '%s._uid.__bytearray__()' % var and body[1] is inner[0],
+                              'C14.1', 'PGPKey.__bytearray__', 'user id block %s' % btxt[:120],
+                              'each user id / attribute packet is immediately followed by its own signatures', where=f.where)
                     for b in inner:
-                        rep.check(('%s._signatures' % var) in b[2], 'C14.1', 'PGPKey.__bytearray__', 'uid signatures from %s' % b[2],
+                        ibase, iconds = split_filter(b[2])
+                        ok = ibase == '%s._signatures' % var and _one_packet(b[3], '%s.__bytearray__()' % b[1])
+                        rep.check(ok, 'C14.1', 'PGPKey.__bytearray__', 'uid signatures from %s: %s' % (ibase, render_item(b)[:100]),
                                   'the signatures after a user id must be that user id\'s signatures', where=f.where)
-                elif coll.startswith('self._children'):
+                        if ok:
+                            sites.append((b[1], iconds, False, b[2]))
+                elif base in ('self._children.values()', 'self._children.items()', 'self.subkeys.values()', 'self.subkeys.items()'):
                     kinds.append('SUBKEYS')
-                    rep.check(btxt == '%s.__bytearray__()' % var, 'C14.1', 'PGPKey.__bytearray__', 'subkey block %s' % btxt,
+                    unfiltered.append(('subkeys', conds))
+                    elem = _second(var) if base.endswith('.items()') else var
+                    rep.check(_one_packet(body, '%s.__bytearray__()' % elem), 'C14.1', 'PGPKey.__bytearray__', 'subkey block %s' % btxt,
                               'subkeys are exported through the same method (packet, then its signatures)', where=f.where)
-                elif 'self._signatures' in coll:
+                elif base == 'self._signatures' and _one_packet(body, '%s.__bytearray__()' % var):
                     kinds.append('KEYSIGS')
+                    sites.append((var, conds, True, coll))
                 else:
                     kinds.append('?(%s)' % coll[:40])
             else:
                 kinds.append('?(%s)' % render_item(it)[:40])
-        rep.check(kinds == ['KEY', 'KEYSIGS', 'UIDS', 'SUBKEYS'], 'C14.1', 'PGPKey.__bytearray__', 'sequence %s' % kinds,
+        rep.check(kinds == want, 'C14.1', 'PGPKey.__bytearray__', 'sequence %s' % kinds,
                   'a transferable key is the key packet, its signatures, user ids each with their signatures, then subkeys (RFC 4880 11.1)', where=f.where,
-                  expected=['KEY', 'KEYSIGS', 'UIDS', 'SUBKEYS'], found=kinds)
-    # filters at every signature emission site
-    sites = []
-    for n in ast.walk(f.node):
-        if isinstance(n, ast.For) and any(isinstance(c, ast.Call) and isinstance(c.func, ast.Attribute) and c.func.attr == '__bytearray__' and
-                                          isinstance(c.func.value, ast.Name) and c.func.value.id == ast.unparse(n.target)
-                                          for st in n.body for c in ast.walk(st)) and '_signatures' in ast.unparse(n.iter):
-            sites.append(n)
-    rep.check(len(sites) == 2, 'C14.1', 'PGPKey.__bytearray__', 'signature emission sites %d' % len(sites), 'key-level and user-id-level signature loops', where=f.where)
-    for n in sites:
-        comp = [c for c in ast.walk(n.iter) if isinstance(c, (ast.GeneratorExp, ast.ListComp))]
-        conds = [ast.unparse(i).replace(' ', '') for c in comp for g in c.generators for i in g.ifs]
-        flat = []
-        for c in conds:
-            flat.extend(x.strip('()') for x in c.split('and'))
-        v = ast.unparse(comp[0].generators[0].target) if comp else '?'
-        key_level = 'self._signatures' in ast.unparse(n.iter)
-        pos = '%s.exportable' % v in flat
-        rep.check(pos, 'C14.1', 'PGPKey.__bytearray__', 'filter at %s: %s' % (ast.unparse(n.iter)[:60], conds),
-                  'exactly the exportable signatures are exported: the filter must keep s.exportable (positive polarity)', where='%s:%d' % (f.module.relpath, n.lineno),
-                  expected='if s.exportable', found=conds)
-        extra = [x for x in flat if x not in ('%s.exportable' % v, 'not%s.embedded' % v)]
-        rep.check(not extra and (('not%s.embedded' % v in flat) == key_level), 'C14.1', 'PGPKey.__bytearray__', 'other filter terms %s' % extra,
-                  'no other condition may drop signatures; embedded cross-signatures are skipped only in the key-level list (they live inside their binding)',
-                  where='%s:%d' % (f.module.relpath, n.lineno), found=flat)
+                  expected=want, found=kinds)
+        for what, conds in unfiltered:
+            rep.check(not conds, 'C14.1', 'PGPKey.__bytearray__', '%s exported under %s' % (what, conds or 'no condition'),
+                      'every user id and every subkey of the key is exported', where=f.where, found=conds)
+        # filters at every signature emission site (as truth tables over the conditions of the emitted element)
+        rep.check(len(sites) == 2, 'C14.1', 'PGPKey.__bytearray__', 'signature emission sites %d' % len(sites), 'key-level and user-id-level signature loops', where=f.where)
+        for v, conds, key_level, coll in sites:
+            E, M = '%s.exportable' % v, '%s.embedded' % v
+            sk = conj(conds)
+            try:
+                tab, names = table(sk, [E])
+            except ValueError as ex:
+                raise AnalysisError('PGPKey.__bytearray__: filter too large (%s)' % ex)
+            rows = [(dict(zip(names, vals)), keep) for vals, keep in tab.items()]
+            pos = E in atoms(sk) and all(a[E] for a, keep in rows if keep) and any(keep for a, keep in rows)
+            rep.check(pos, 'C14.1', 'PGPKey.__bytearray__', 'filter at %s: %s' % (coll[:60], conds),
+                      'exactly the exportable signatures are exported: the filter must keep s.exportable (positive polarity)', where=f.where,
+                      expected='if s.exportable', found=conds)
+            extra = sorted(atoms(sk) - {E, M})
+            expect = ('and', [('atom', E), ('not', ('atom', M))]) if key_level else ('atom', E)
+            rep.check(not extra and same(sk, expect), 'C14.1', 'PGPKey.__bytearray__', 'other filter terms %s (%s)' % (extra, conds),
+                      'no other condition may drop signatures; embedded cross-signatures are skipped only in the key-level list (they live inside their binding)',
+                      where=f.where, found=conds)
 
 
 def render_item(it):
